@@ -267,10 +267,14 @@ fn gen_message(cx: &mut Ctx, ver: u32, kind: u64, work: &std::path::Path) -> (Ve
 		}
 		13 => {
 			// Headers: n >= 1 items, read back in batches of 32
-			let n = *r.pick(&[1usize, 2, 31, 32, 33, 64, 65]);
+			let n = *r.pick(&[0usize, 1, 2, 31, 32, 33, 64, 65]);
 			let n = if n > 3 && !cx.thorough && r.chance(1, 2) { 3 } else { n };
-			let hs: Vec<BlockHeader> = header_pool(cx, n);
+			let hs: Vec<BlockHeader> = if n == 0 { vec![] } else { header_pool(cx, n) };
 			let mut exp = vec![];
+			if n == 0 {
+				// the empty list (what a peer answers to GetHeaders when it has nothing newer): one empty batch
+				exp.push(Exp::Headers(0, 0, hex(&[])));
+			}
 			let mut i = 0;
 			while i < n {
 				let j = (i + 32).min(n);
@@ -715,7 +719,16 @@ fn headers_inconsistent(cx: &mut Ctx) {
 		let r = run_codec(ver, &[w.clone()], &[0]);
 		cx.stat("Headers frames with inconsistent count");
 		let total: u64 = r.events.iter().map(|e| e.rsplit(':').next().unwrap().parse::<u64>().unwrap_or(0)).sum::<u64>() + r.end_bytes;
-		let consistent = count as usize == present && junk == 0 && count > 0;
+		let consistent = count as usize == present && junk == 0;
+		if consistent {
+			// read as written: the batches, then the Ping behind it, then end of stream
+			let batches: Vec<String> = r.events.iter().filter(|e| e.starts_with("headers:")).map(|e| e.split(':').take(3).collect::<Vec<_>>().join(":")).collect();
+			let want = vec![format!("headers:{}:0", count)];
+			if batches != want || r.events.len() != 2 || r.end != "Connection" {
+				cx.fails += 1;
+				cx.out.raw(&format!("#ORACLE-FAIL C19 consistent Headers frame (count {} = items present) not read as written: batches {:?} events {} end {} stream {}", count, batches, r.events.len(), r.end, hex(&w).chars().take(400).collect::<String>()));
+			}
+		}
 		if !consistent && (r.end != "BadMessage" && !r.end.starts_with("Ser:")) {
 			cx.fails += 1;
 			cx.out.raw(&format!("#ORACLE-FAIL C19 inconsistent Headers frame (count {} present {} junk {}) not refused: end {} stream {}", count, present, junk, r.end, hex(&w)));
@@ -731,7 +744,7 @@ fn headers_inconsistent(cx: &mut Ctx) {
 					hex(&w)
 				));
 			} else {
-				cx.out.raw(&format!("#STAT probe empty-headers-refused: NOT reproduced (end {})", r.end));
+				cx.out.raw(&format!("#STAT regression probe empty-headers-refused: repaired behaviour confirmed (the empty Headers message is delivered: events {:?}, end {})", r.events.iter().map(|e| e.chars().take(30).collect::<String>()).collect::<Vec<_>>(), r.end));
 			}
 		}
 		if count == 0 && present > 0 {
@@ -1332,6 +1345,9 @@ impl Conv {
 	fn headers(&mut self, hs: &[BlockHeader]) -> (usize, usize) {
 		let ver = self.ver;
 		let n = hs.len();
+		if n == 0 {
+			self.exp.push(Exp::Headers(0, 0, hex(&[])));
+		}
 		let mut i = 0;
 		while i < n {
 			let j = (i + 32).min(n);
@@ -1346,7 +1362,7 @@ impl Conv {
 		self.zones.push(("BlockHeaders", s + 13, s + w.len()));
 		self.stream.extend_from_slice(&w);
 		self.names.push(format!("Headers({})", n));
-		(s + 13, sv(&hs[0], ver).len())
+		(s + 13, hs.first().map(|h| sv(h, ver).len()).unwrap_or(0))
 	}
 	fn block(&mut self, b: &Block) -> (usize, usize) {
 		let canon = hex(&sv(b, self.ver));
@@ -2259,12 +2275,16 @@ fn conn_level(cx: &mut Ctx, work: &std::path::Path) {
 		{
 			let mut stream = first.clone();
 			stream.extend_from_slice(&hidden);
+			// … followed by the EMPTY Headers message (what a peer answers to GetHeaders when it has nothing newer;
+			// refused before /repo 11bd5ac16) and one more Ping
+			stream.extend_from_slice(&wire(&Msg::new(Type::Headers, Headers { headers: vec![] }, ProtocolVersion(ver)).unwrap()));
+			stream.extend_from_slice(&ping_frame(ver, 666_003));
 			cases.push(Case {
-				name: "control: the same frames without a refused header in front".to_string(),
+				name: "control: the same frames without a refused header in front, then an empty Headers message and a Ping".to_string(),
 				ver,
 				stream,
-				want: vec!["ping:1001".into(), "ping:666001".into(), "getpeeraddrs:15".into(), "ping:666002".into()],
-				pongs: 3,
+				want: vec!["ping:1001".into(), "ping:666001".into(), "getpeeraddrs:15".into(), "ping:666002".into(), "headers:0:-".into(), "ping:666003".into()],
+				pongs: 4,
 				want_closed: false,
 				empty_tx: false,
 			});
